@@ -158,7 +158,8 @@ CLAIMED["C18"] = dict(
     text="Proof: segments are modelled as the connected components of the incidence graph between links and their end nodes, cut "
          "where a valve sits; any labelling accepted by the executable predicate labels_ok has positive labels and two elements share a "
          "label exactly when they are joinable without passing a valve (soundness by induction on closure iterations, completeness by "
-         "induction on paths; reuses the C09 graph lemmas). Tie decided inside coqc: the labelling returned by the real valve_segments "
+         "induction on paths; reuses the C09 graph lemmas); the component computation of the model is total (C18_component_total, by the C09 "
+         "fuel argument), so the theorems are never vacuous. Tie decided inside coqc: the labelling returned by the real valve_segments "
          "on random multigraphs and valve layers (duplicates, parallel links, dead ends) is accepted by labels_ok, the reported sizes "
          "count the members, and num_surround / demand_increase / length_increase equal their definitions.",
     ref="DESIGN.md section 5 C18",
@@ -176,7 +177,7 @@ CLAIMED["C19"] = dict(
          "decided inside coqc on exact rationals: lengths, elevation, coordinates of real split/break calls; the skeleton map of real "
          "skeletonize calls is a partition and every retained node's demand entries (tracked by object identity) are exactly those of "
          "the nodes mapped to it; protected elements are kept. Frame conditions (all other element dictionaries unchanged, input "
-         "untouched with return_copy, new pipe without check valve, unchanged hydraulics after a split) are observed on the implementation.",
+         "untouched with return_copy, new pipe without check valve, unchanged hydraulics after a split) are observed on the implementation. Pipes drawn with vertices: the polyline length is additive under a cut and an interpolated point divides an axis-parallel segment proportionally (C19/Poly.v); the returned polylines of generated axis-parallel pipes keep every vertex, meet at the new junction and have drawn lengths f L and (1 - f) L (poly_split_ok, decided inside coqc).",
     ref="DESIGN.md section 5 C19",
     note="Trusted: Coq kernel (axiom-free, uses Permutation from the standard library); harness. Not modelled: pipes with vertices, merged "
          "pipe properties (equivalent roughness), the hydraulic simulation used to compare heads before/after a split (tolerance 1e-3 m).",
